@@ -4,6 +4,7 @@ import ElfioVerif.Driver.Load
 import ElfioVerif.Driver.C14
 import ElfioVerif.Driver.C08
 import ElfioVerif.Driver.C13
+import ElfioVerif.Driver.C11
 open ElfioVerif.Drv
 
 def main (args : List String) : IO UInt32 := do
@@ -13,4 +14,5 @@ def main (args : List String) : IO UInt32 := do
   | ["c14"] => mainLoop C14.runCase; return 0
   | ["c08"] => mainLoop C08.runCase; return 0
   | ["c13"] => mainLoop C13.runCase; return 0
+  | ["c11"] => mainLoop C11.runCase; return 0
   | _ => IO.eprintln "usage: driver <family>"; return 2
